@@ -591,6 +591,7 @@ func (c *Ctx) startsWithCatchErr(pkg *packages.Package, body *ast.BlockStmt, cat
 var freshStackAllowed = map[string]string{
 	"funcGen.Func.Eval":                 "top of an evaluation",
 	"funcGen.New":                       "scratch stack of the optimizer, Generate time",
+	"funcGen.optimizer.Optimize":        "constant folding at Generate time",
 	"value.List.String":                 "fmt.Stringer, host side printing",
 	"value.Map.String":                  "fmt.Stringer, host side printing",
 	"value.flatten":                     "host side helper without a stack parameter",
@@ -609,8 +610,9 @@ func ruleR056(c *Ctx) {
 		return
 	}
 	newEmpty := LookupFunc(a.fg, "NewEmptyStack")
-	if newEmpty == nil {
-		c.Undecided("funcGen.NewEmptyStack", token.NoPos, "not found")
+	newStack := LookupFunc(a.fg, "NewStack")
+	if newEmpty == nil || newStack == nil {
+		c.Undecided("funcGen.NewEmptyStack/NewStack", token.NoPos, "not found")
 		return
 	}
 	n := 0
@@ -619,7 +621,7 @@ func ruleR056(c *Ctx) {
 		for _, f := range pkg.Syntax {
 			ast.Inspect(f, func(x ast.Node) bool {
 				call, ok := x.(*ast.CallExpr)
-				if !ok || !isCallTo(info, call, newEmpty) {
+				if !ok || !(isCallTo(info, call, newEmpty) || isCallTo(info, call, newStack)) {
 					return true
 				}
 				fd := c.EnclosingDecl(call)
@@ -628,9 +630,13 @@ func ruleR056(c *Ctx) {
 				}
 				n++
 				fname := declName(pkg, fd)
-				key := fmt.Sprintf("%s#NewEmptyStack[%d]", fname, ordinalIn(fd, call, func(y ast.Node) bool {
+				ctor := newEmpty
+				if isCallTo(info, call, newStack) {
+					ctor = newStack
+				}
+				key := fmt.Sprintf("%s#%s[%d]", fname, ctor.Name(), ordinalIn(fd, call, func(y ast.Node) bool {
 					cc, ok := y.(*ast.CallExpr)
-					return ok && isCallTo(info, cc, newEmpty)
+					return ok && isCallTo(info, cc, ctor)
 				}))
 				if why, ok := freshStackAllowed[fname]; ok {
 					c.OK(key, call.Pos(), "fresh stack at a host boundary: %s", why)
